@@ -43,7 +43,7 @@ def describe(tier):
         rule='E2: all operator skeletons seq := item (op item)*, op in {>,+,^,^^}, item := elem rep? | (seq) rep?, '
              'rep in {*2,*3} with (elements, group nesting, repeaters) bounds: full kind product (named / named-self-closed '
              '/ implicit / name ending in `$` per element) x 6 configurations (html|xhtml|xml x format on|off) for %s; <=1 non-named element x 2 '
-             'configurations for %s; named only for %s; implicit-name sweep (parent of every implicit element ranging over '
+             'configurations for %s; named only for %s; implicit-name sweep (every written element that is not the parent of an implicit one ranging over ul/table/em/select/tr; parent of every implicit element ranging over '
              '%d names, inlineElements passed explicitly, plus %d names under the default list) for %s; composition sweep over '
              'all ordered pairs of the corpus %s: expand((A)+(B)) = expand(A)+expand(B), expand(x>(A)) = <x>expand(A)</x>, '
              'expand((A)*2) = expand(A) twice. State = derivation x kinds x configuration; transition = one production / '
@@ -63,7 +63,7 @@ def shards(tier):
     out = []
     for mode in ('full', 'dev1', 'named', 'implicit'):
         for (n, g, r) in b[mode]:
-            ns = 1 if n <= 2 else NSH
+            ns = 1 if n <= 1 else NSH
             for k in range(ns):
                 out.append(dict(mode=mode, n=n, g=g, r=r, k=k, of=ns))
     for k in range(NSH):
@@ -189,8 +189,33 @@ def implicit_parent_sites(seq, n):
         yield labels, sorted(parents)
 
 
+# names given to written elements that are NOT the parent of the implicit element (ancestors further up, earlier siblings'
+# subtrees, elements left behind by `^^`): they must not influence the implicit name
+BYSTANDERS = ['ul', 'table', 'em', 'select', 'tr']
+
+
+def run_bystanders(seq, n, labels, parents, ctx):
+    for q in range(n):
+        if labels[q][0] in '.#[' or q in parents:
+            continue
+        for name in BYSTANDERS:
+            l = list(labels)
+            l[q] = name
+            ctx.tick((seq, l))
+            ctx.states += 1
+            ctx.transitions += 1
+            ctx.evals += 1
+            ctx.validated += 1
+            ctx.nontrivial += 1
+            abbr, tree, bad = check_one(seq, l, 'html', False, INLINE)
+            if bad:
+                cls = 'implicit-name:taken-from-an-element-that-is-not-the-parent' if bad[0] == 'tree:element-name' else bad[0]
+                ctx.violation(cls, dict(case_of(seq, l, 'html', False, INLINE), bystander=True), bad[1])
+
+
 def run_implicit(seq, n, ctx):
     for labels, parents in implicit_parent_sites(seq, n):
+        run_bystanders(seq, n, labels, parents, ctx)
         if not parents:
             ctx.skip('implicit elements without a named parent element (covered by the full sweep)')
             continue
@@ -305,6 +330,8 @@ def check_case(case):
         return compose_check(*case['compose'])
     seq = _tuplify(case['seq'])
     abbr, tree, bad = check_one(seq, case['labels'], case['style'], case['format'], case.get('inline'))
+    if bad and bad[0] == 'tree:element-name' and case.get('bystander'):
+        bad = ('implicit-name:taken-from-an-element-that-is-not-the-parent', bad[1])
     if bad and bad[0] == 'tree:element-name' and case.get('inline') is not None:
         bad = ('implicit-name', bad[1])
     if bad and bad[0] == 'tree:element-name' and (case.get('implicit') or any(l in PARENTS for l in case['labels'])):
